@@ -105,6 +105,71 @@ def run_l1(prop, tier, chk, model, bres):
         shutil.rmtree(tmp, ignore_errors=True)
 
 
+def real_record_stream(prop, tier, chk, model, bres):
+    """real record objects handed to DLISWriter.write_logical_records, among them records of classes derived from the
+    library's concrete record classes with a record type of their own (an end-of-data record as a payload-less no-format
+    record of type 127; a user-defined set type), made after their parent classes were first used: the file carries,
+    per record, the flag and type of the record's own class and its body"""
+    if not bres.ok:
+        return
+    import numpy as np
+    from dliswriter.logical_record import eflr_types as T
+    from dliswriter.logical_record.iflr_types.no_format_frame_data import NoFormatFrameData
+    from dliswriter.utils.internal.internal_enums import IFLRType, EFLRType
+    from harness import l1 as _l1
+    from harness.impl import wr
+    from dliswriter.logical_record.misc.storage_unit_label import StorageUnitLabel
+    R = rng(prop, 'real-records')
+
+    from enum import IntEnum
+
+    class OwnType(IntEnum):
+        EOD = 127
+
+    class EndOfData(NoFormatFrameData):
+        logical_record_type = OwnType.EOD
+
+    class PrivateAxisSet(T.AxisSet):
+        logical_record_type = EFLRType.UDI
+
+    tmp = tempfile.mkdtemp(prefix='verif_rr_')
+    try:
+        for i in range(12 if tier == 'quick' else 100):
+            vrl = R.choice([64, 128, 8192])
+            nfs = T.NoFormatSet()
+            nf = T.NoFormatItem('NF', parent=nfs, origin_reference=1)
+            axs = T.AxisSet()
+            T.AxisItem('AX', parent=axs, origin_reference=1, axis_id='A')
+            pax = PrivateAxisSet()
+            T.AxisItem('PX', parent=pax, origin_reference=1, axis_id='P')
+            recs = [nfs, axs, NoFormatFrameData(nf, bytes(R.randrange(256) for _ in range(R.choice([0, 3, 200])))), pax,
+                    NoFormatFrameData(nf, b'second'), EndOfData(nf, b'')]
+            if R.random() < 0.5:
+                recs.insert(3, EndOfData(nf, b'x'))
+            want = []
+            for r_ in recs:
+                body = bytes(r_._make_body_bytes())
+                want.append((bool(r_.is_eflr), int(type(r_).logical_record_type.value), body))
+            fn = f'{tmp}/rr.dlis'
+
+            def f():
+                w = wr.DLISWriter(fn, visible_record_length=vrl)
+                w.write_storage_unit_label(StorageUnitLabel('REAL', 1, vrl))
+                w.write_logical_records(recs, output_chunk_size=1 << 20)
+            st, err = call(f)
+            case = {'max_record_length': vrl, 'records': [f'{type(r_).__name__} (a {type(r_).__mro__[1].__name__}) declared type '
+                                                          f'{int(type(r_).logical_record_type.value)}' for r_ in recs]}
+            chk.case('real-records', nontrivial_key=('rr', i), sample={'vrl': vrl, 'n': len(recs), 'status': st})
+            if st != 'ok':
+                chk.fail('real-records:raises', case, f'write raised {err}')
+                continue
+            rep = model.ask([_l1.read_req('read', vrl, 1, 'REAL', open(fn, 'rb').read())])[0]
+            if rep != _l1.show_recs(want):
+                chk.fail('real-records:records-differ', case, f'read back {rep[:160]!r}, handed in {_l1.show_recs(want)[:160]!r}')
+    finally:
+        shutil.rmtree(tmp, ignore_errors=True)
+
+
 def run_prop(prop, tier):
     chk = Check(prop, tier)
     chk.rule = ('(a) exhaustive (capacity, body length) window through the real make_segments: capacities 12..40 '
@@ -116,6 +181,8 @@ def run_prop(prop, tier):
     bres = build(th)
     model = Model()
     run_l1(prop, tier, chk, model, bres)
+    if prop == 'C02':
+        real_record_stream(prop, tier, chk, model, bres)
     try:
         from harness import filegen
         filegen.run_framing_stream(prop, tier, chk, model, bres)
